@@ -839,6 +839,9 @@ func (ev *Evaluator) instr(env map[ssa.Value]Val, in ssa.Value) (Val, error) {
 		}
 		x, idx = rebaseSlice(x, idx)
 		return ElemPtr{Base: x, Index: idx}, nil
+	case *ssa.SliceToArrayPointer:
+		// (*[N]T)(s): the same elements seen as an array (the length test is the index obligation of the conversion)
+		return ev.val(env, in.X)
 	case *ssa.MakeClosure:
 		f, ok := in.Fn.(*ssa.Function)
 		if !ok {
@@ -1287,7 +1290,30 @@ func (ev *Evaluator) call(env map[ssa.Value]Val, in *ssa.Call) (Val, error) {
 			if c, ok := args[0].(Const); ok && c.V != nil && c.V.Kind() == constant.String {
 				return Const{constant.MakeInt64(int64(len(constant.StringVal(c.V))))}, nil
 			}
+			// x[lo:hi] with constant bounds has hi-lo elements (that the bounds are within x is the index obligation)
+			if t, ok := args[0].(Term); ok && strings.HasPrefix(t.Fn, "slice[") && strings.HasSuffix(t.Fn, "]") {
+				var lo, hi int64
+				if n, _ := fmt.Sscanf(t.Fn, "slice[%d:%d]", &lo, &hi); n == 2 && 0 <= lo && lo <= hi {
+					return Const{constant.MakeInt64(hi - lo)}, nil
+				}
+			}
 			return Term{Fn: "len", Args: args}, nil
+		}
+		// append of modelled elements to a modelled slice: the concatenation (fresh cells: append never writes through
+		// the elements it was given)
+		if callee.Name() == "append" && len(args) == 2 {
+			if a, ok := args[0].(*SliceV); ok {
+				if b, ok := args[1].(*SliceV); ok {
+					out := &SliceV{}
+					for _, c := range a.Elems {
+						out.Elems = append(out.Elems, c)
+					}
+					for _, c := range b.Elems {
+						out.Elems = append(out.Elems, &Cell{V: c.V, Name: c.Name})
+					}
+					return out, nil
+				}
+			}
 		}
 		return Term{Fn: "builtin." + callee.Name(), Args: args}, nil
 	case *ssa.Function:
